@@ -220,7 +220,7 @@ pub fn check(case: &Case, info: &mut CaseInfo) -> Result<(), Fail> {
 pub fn run(ctx: &Ctx, rep: &mut Report) {
     let (n, phases) = match ctx.tier {
         Tier::Quick => (240, 4),
-        Tier::Thorough => (1_000, 7),
+        Tier::Thorough => (2_000, 7),
     };
     run_prop(ctx, rep, "feeds", case_strategy(phases), n, 60, check);
 }
